@@ -608,8 +608,75 @@ class Repo:
             return tuple(f(e) for e in expr.elts)
         if isinstance(expr, ast.List):
             return [f(e) for e in expr.elts]
+        if isinstance(expr, ast.Set):
+            return frozenset(f(e) for e in expr.elts)
+        if isinstance(expr, ast.Dict):
+            out = {}
+            for k, v in zip(expr.keys, expr.values):
+                if k is None:
+                    sub = f(v)
+                    if not isinstance(sub, dict):
+                        raise NotConst("** of a non-dict")
+                    out.update(sub)
+                else:
+                    out[f(k)] = f(v)
+            return out
+        if isinstance(expr, ast.IfExp):
+            return f(expr.body) if f(expr.test) else f(expr.orelse)
+        if isinstance(expr, ast.Subscript) and not isinstance(expr.slice, ast.Slice):
+            ci = self.resolve_class(module, expr.value) if dotted(expr.value) else None
+            if ci is not None and ci.is_enum():
+                key = f(expr.slice)
+                mem = ci.enum_members(self)
+                if isinstance(key, str) and key in mem:
+                    return EnumVal(ci, key, mem[key])
+                raise NotConst(f"{ci.name}[{key!r}] is not a member")
+            base, idx = f(expr.value), f(expr.slice)
+            try:
+                return base[idx]
+            except Exception as ex:
+                raise NotConst(f"subscript: {ex}")
+        if isinstance(expr, (ast.ListComp, ast.SetComp, ast.GeneratorExp, ast.DictComp)):
+            def iterate(gens, env2):
+                if not gens:
+                    yield env2
+                    return
+                g0 = gens[0]
+                for item in self._fold_iter(module, g0.iter, env2, _depth):
+                    e3 = dict(env2)
+                    self._bind_target(g0.target, item, e3)
+                    if all(self.fold(module, c, e3, _depth + 1) for c in g0.ifs):
+                        yield from iterate(gens[1:], e3)
+
+            rows = list(iterate(expr.generators, dict(env or {})))
+            if len(rows) > 4096:
+                raise NotConst("comprehension too large")
+            if isinstance(expr, ast.DictComp):
+                return {self.fold(module, expr.key, e3, _depth + 1): self.fold(module, expr.value, e3, _depth + 1) for e3 in rows}
+            vals = [self.fold(module, expr.elt, e3, _depth + 1) for e3 in rows]
+            return frozenset(vals) if isinstance(expr, ast.SetComp) else vals
         if isinstance(expr, ast.Call):
             fn = dotted(expr.func) or ""
+            if isinstance(expr.func, ast.Attribute) and expr.func.attr in ("items", "keys", "values") and not expr.args:
+                try:
+                    base = f(expr.func.value)
+                except NotConst:
+                    base = None
+                if isinstance(base, dict):
+                    return list(getattr(base, expr.func.attr)())
+            if fn in ("list", "tuple", "dict", "set", "frozenset", "sorted") and len(expr.args) == 1 and not expr.keywords:
+                items = self._fold_iter(module, expr.args[0], env, _depth)
+                try:
+                    return {"list": list, "tuple": tuple, "dict": dict, "set": frozenset, "frozenset": frozenset, "sorted": sorted}[fn](items)
+                except Exception as ex:
+                    raise NotConst(str(ex))
+            if fn == "range" and 1 <= len(expr.args) <= 3:
+                a = [f(x) for x in expr.args]
+                if all(isinstance(x, int) for x in a) and len(range(*a)) <= 4096:
+                    return list(range(*a))
+            if fn in ("zip", "enumerate") and expr.args:
+                its = [self._fold_iter(module, x, env, _depth) for x in expr.args]
+                return list(zip(*its)) if fn == "zip" else list(enumerate(its[0]))
             q = self.qual(module, expr.func) if dotted(expr.func) else None
             if q == "struct.Struct" and expr.args:
                 fmt = f(expr.args[0])
@@ -646,11 +713,40 @@ class Repo:
             return default
 
     # ------------------------------------------------------------------ dict tables
+    def _fold_iter(self, module: Module, expr: ast.AST, env, _depth: int) -> list:
+        """Elements of a foldable iterable: list/tuple/set/dict values, or the members of an Enum class in definition order."""
+        ci = self.resolve_class(module, expr) if dotted(expr) and not (env and isinstance(expr, ast.Name) and expr.id in env) else None
+        if ci is not None and ci.is_enum():
+            return [EnumVal(ci, n, v) for n, v in ci.enum_members(self).items()]
+        v = self.fold(module, expr, env, _depth + 1)
+        if isinstance(v, dict):
+            return list(v)
+        if isinstance(v, (list, tuple, frozenset, set, str, bytes)):
+            return list(v)
+        raise NotConst(f"not iterable: {unparse(expr)}")
+
+    @staticmethod
+    def _bind_target(target, item, env: dict):
+        if isinstance(target, ast.Name):
+            env[target.id] = item
+        elif isinstance(target, (ast.Tuple, ast.List)) and isinstance(item, (tuple, list)) and len(item) == len(target.elts):
+            for t, i in zip(target.elts, item):
+                Repo._bind_target(t, i, env)
+        else:
+            raise NotConst("comprehension target")
+
     def dict_table(self, module: Module, name: str) -> list:
-        """Module-level dict literal -> [(key value, value value, key node, value node)] with folded members."""
+        """Module-level dict (literal, literal with ** of other tables, or comprehension over enum members)
+        -> [(key value, value value, key node, value node)] with folded members."""
         expr = module.get_const_expr(name)
-        if not isinstance(expr, ast.Dict):
-            raise AnalysisError(f"{module.relpath}: {name} is no longer a dict literal")
+        if not (isinstance(expr, ast.Dict) and all(k is not None for k in expr.keys)):
+            try:
+                d = self.fold(module, expr)
+            except NotConst as ex:
+                raise AnalysisError(f"{module.relpath}: {name} is not a foldable table: {ex}")
+            if not isinstance(d, dict):
+                raise AnalysisError(f"{module.relpath}: {name} is no longer a dict")
+            return [(k, v, expr, expr) for k, v in d.items()]
         out = []
         for k, v in zip(expr.keys, expr.values):
             if k is None:
